@@ -17,6 +17,9 @@ from .common import *
 from .c02 import group, spec_action, matmul
 
 
+AUX0 = "state-0"
+
+
 class InnerModel(object):
     """Uninterpreted model: each output element is a function symbol of the whole input (values, types, order by type)."""
 
@@ -31,7 +34,9 @@ class InnerModel(object):
     def __call__(self, x, aux=None):
         self.n_calls += 1
         MI = self.it.get_module(GEOM).MultiImage
-        key = tuple((t, x[t].shape, tuple(pk(e) for e in x[t].elems)) for t in sorted(x.keys()))
+        # the model may be stateful: its output is a function of the input *and* of the auxiliary state it is handed,
+        # and it hands back a new state
+        key = (tuple((t, x[t].shape, tuple(pk(e) for e in x[t].elems)) for t in sorted(x.keys())), repr(aux))
         kid = sym_id(("appkey", key))
         sp = x.get_spatial_dims() if self.spatial_of is None else self.spatial_of
         blocks = {}
@@ -41,7 +46,7 @@ class InnerModel(object):
             for s in shape:
                 n *= s
             blocks[t] = A.Arr(shape, [Poly.fn("M", kid, t, i) for i in range(n)], "float")
-        return MI(blocks, x.D, x.is_torus), aux
+        return MI(blocks, x.D, x.is_torus), (None if aux is None else ("state-after", kid))
 
 
 def act(blocks, D, g, nlead=1):
@@ -87,8 +92,8 @@ def ga_worker(job):
     ops = [A.as_arr(g) for g in G]
     if mode == "off":
         wrapper = models.GroupAverage(inner, ops, False, False)
-        res = attempt(lambda: wrapper(x, None))
-        direct, _ = inner(x, None)
+        res = attempt(lambda: wrapper(x, AUX0))
+        direct, direct_aux = inner(x, AUX0)
         if isinstance(res, Rejected):
             problems.append(("rejected", "wrapper rejected the input: %s" % res.exc, None))
         else:
@@ -97,9 +102,11 @@ def ga_worker(job):
                 if t not in out or not same_elems(out[t], direct[t]):
                     problems.append(("off", "with averaging off the result is not the inner model's result (block %s)" % tname(t), None))
                     break
+            if aux != direct_aux:
+                problems.append(("off", "with averaging off the returned state is %r, not the inner model's %r" % (aux, direct_aux), None))
         return dict(cfg=cfg, problems=problems)
     wrapper = models.GroupAverage(inner, ops, mode == "always", mode == "inference")
-    res = attempt(lambda: wrapper(x, None))
+    res = attempt(lambda: wrapper(x, AUX0))
     if isinstance(res, Rejected):
         problems.append(("rejected", "wrapper rejected the input: %s" % res.exc, None))
         return dict(cfg=cfg, problems=problems)
@@ -109,7 +116,7 @@ def ga_worker(job):
     acc = None
     for g in G:
         gx = act(xb, D, g)
-        mx, _ = spec_inner(make_multi(it, sorted(gx), gx, D, True), None)
+        mx, _ = spec_inner(make_multi(it, sorted(gx), gx, D, True), AUX0)  # every copy sees the caller's state
         back = act({t: mx[t] for t, _ in out_sig}, D, transpose(g))
         acc = back if acc is None else {t: acc[t] + back[t] for t in back}
     exp = {t: acc[t] * A.as_arr(1) / len(G) for t in acc}
@@ -123,7 +130,7 @@ def ga_worker(job):
     # direct equivariance for the uninterpreted inner model: wrapper(h.x) == h.wrapper(x)
     h = G[hi % len(G)]
     hx = act(xb, D, h)
-    res2 = attempt(lambda: wrapper(make_multi(it, [t for t, _ in sig], hx, D, True), None))
+    res2 = attempt(lambda: wrapper(make_multi(it, [t for t, _ in sig], hx, D, True), AUX0))
     if isinstance(res2, Rejected):
         problems.append(("rejected", "wrapper rejected the transformed input: %s" % res2.exc, None))
         return dict(cfg=cfg, problems=problems)
